@@ -40,18 +40,17 @@ func DeduplicateSliceInPlaceWithCompare[S ~[]V, V any](s *S, compare func(a, b V
 	if s == nil || len(*s) < 2 {
 		return
 	}
-	seen := make(map[int]struct{})
 	resultIndex := 0
 	for i := range *s {
 		unique := true
-		for j := range seen {
+		// the elements kept so far are exactly (*s)[:resultIndex]
+		for j := 0; j < resultIndex; j++ {
 			if compare((*s)[i], (*s)[j]) {
 				unique = false // Found a duplicate
 				break
 			}
 		}
 		if unique {
-			seen[i] = struct{}{}
 			(*s)[resultIndex] = (*s)[i]
 			resultIndex++
 		}
